@@ -463,7 +463,7 @@ PROPERTIES["C17"] = {
 
 PROPERTIES["C15"] = {
     "level": "other",
-    "level_text": "SBV unit: bounded symbolic execution of the real tensor writer/reader through real std::istream/std::ostream objects: (a) write;read is the identity for ALL contents (shapes enumerated), (b) for EVERY byte buffer of the configured length (hence every truncation and every corruption of header and payload, dims bounded) the real reader accepts exactly what an independently written reference reader of the documented layout accepts and decodes the same shape and contents, (c) every strict prefix of a valid stream is rejected, (d) any alteration of the last payload element is rejected; unit C15_objects: parameters of every kind with SYMBOLIC in-domain values and bounds, strings with symbolic characters and whole registered solver objects are written and read back equal and bit-identical, and every strict prefix of their streams is rejected. LIFT-C unit: bounded model checking of the lifted hash kernel (last-element injectivity; the non-final collision is a known finding)",
+    "level_text": "SBV unit: bounded symbolic execution of the real tensor writer/reader through real std::istream/std::ostream objects: (a) write;read is the identity for ALL contents (shapes enumerated), (b) for EVERY byte buffer of the configured length (hence every truncation and every corruption of header and payload, dims bounded) the real reader accepts exactly what an independently written reference reader of the documented layout accepts and decodes the same shape and contents, (c) every strict prefix of a valid stream is rejected, (d) any alteration of the last payload element is rejected; unit C15_objects: parameters of every kind with SYMBOLIC in-domain values and bounds, strings with symbolic characters and whole registered solver objects are written and read back equal and bit-identical, and every strict prefix of their streams is rejected; unit C15_wlearners: the fitted state of every weak learner kind (feature indices, double thresholds and coefficient tables as arbitrary finite bit patterns, hinge type, tree nodes, label hashes) is read back bit-identically into an object that held another state, prefixes rejected. LIFT-C unit: bounded model checking of the lifted hash kernel (last-element injectivity; the non-final collision is a known finding)",
     "level_note": SBV_NOTE + "; " + LIFT_NOTE,
     "technique": SBV_TECH + "; hash kernel additionally by " + LIFT_TECH,
     "explanation": "C15 (tensor clauses): nano::write / nano::read of tensors executed symbolically on in-memory stream buffers (std::istream::read / std::ostream::write run natively, their byte transfers are mirrored in the symbolic shadow memory); nano::detail::hash lifted to C for CBMC.",
@@ -505,6 +505,13 @@ PROPERTIES["C15"] = {
          "budget": {"quick": {"deadline_s": 100, "max_paths": 20000, "query_s": 20}, "thorough": {"deadline_s": 900, "max_paths": 200000, "query_s": 60}},
          "encoded": ["nano::parameter_t::{write, read, operator==, value, value_pair, make_scalar, make_integer, make_scalar_pair, make_integer_pair, make_enum, make_string}", "(anonymous)::read/write(range_t, pair_range_t)",
                      "nano::configurable_t::{write, read, parameter, parameters}", "nano::read/write(std::string), read/write(std::vector<parameter_t>)", "nano::solver_t::all / factory_t::get (std::call_once emulated)", "nano::critical (exception path)"]},
+        # fitted state of every weak learner kind with symbolic contents: write -> read into an object holding another state
+        {"engine": "sbv", "harness": "C15_wlearners", "sources": ["C15_wlearners.cpp"],
+         "quick": ["wl=%s" % w for w in ("affine", "stump", "hinge", "dense-table", "dstep-table", "kbest-table", "dtree")],
+         "thorough": ["wl=%s;step=1" % w for w in ("affine", "stump", "hinge", "dense-table", "dstep-table", "kbest-table", "dtree")] + ["wl=dtree;nodes=5;step=4"],
+         "budget": {"quick": {"deadline_s": 60, "max_paths": 5000, "query_s": 20}, "thorough": {"deadline_s": 600, "max_paths": 100000, "query_s": 60}},
+         "encoded": ["nano::{affine, stump, hinge, table (dense / dstep / kbest), dtree}_wlearner_t::{read, write}", "nano::single_feature_wlearner_t::{read, write}", "nano::wlearner_t::{read, write} (learner_t / configurable_t)",
+                     "nano::read / write(dtree_node_t), read / write(std::vector<dtree_node_t>)", "nano::read / write(tensor) incl. payload hash", "nano::read_cast / write casts of feature indices and hinge type"]},
     ],
 }
 PROPERTIES["C15"]["units"][0]["thorough"] = PROPERTIES["C15"]["units"][0]["quick"]
